@@ -83,11 +83,15 @@ def run(ctx):
         if val.id not in tnames:
           continue
         src = lp.iter
-        if isinstance(src, ast.Call) and u(src.func) == 'sorted' and src.args:
-          src = src.args[0]
-        if isinstance(src, ast.Name):
-          src = single_reaching_value(cs, src.id)
-        if isinstance(src, ast.ListComp):
+        # order-only / copying wrappers keep the elements; a name stands for its single definition
+        for _ in range(6):
+          if isinstance(src, ast.Call) and u(src.func) in ('sorted', 'list', 'tuple', 'reversed') and src.args:
+            src = src.args[0]
+          elif isinstance(src, ast.Name):
+            src = single_reaching_value(cs, src.id)
+          else:
+            break
+        if isinstance(src, (ast.ListComp, ast.GeneratorExp)) and len(src.generators) == 1:
           gen = src.generators[0]
           sani = [i for i in gen.ifs if isinstance(i, ast.Call) and prog.resolve_call(cs, i) == SAN and len(i.args) == 1]
           if sani:
@@ -338,6 +342,14 @@ def reference_eq(ctx, rule):
     return
   attrs = {n.attr for n in walk_local(eq.node) if isinstance(n, ast.Attribute) and isinstance(n.value, ast.Name) and n.value.id in (eq.params[0], eq.params[1])
            and n.attr != '__class__'}
+  # a read-only property that just hands out a private attribute stands for that attribute
+  props = {}
+  for name_, m_ in cr.methods.items():
+    if any(u(d) == 'property' for d in m_.node.decorator_list):
+      rs = [r for r in walk_local(m_.node) if isinstance(r, ast.Return)]
+      if len(rs) == 1 and isinstance(rs[0].value, ast.Attribute) and u(rs[0].value.value) == m_.params[0]:
+        props[name_] = rs[0].value.attr
+  attrs = {props.get(a, a) for a in attrs}
   spelled = attrs & {'_scoped_selector', '_selector', 'selector', 'scoped_selector'}
   ctx.check('_configurable' in attrs and not spelled, rule, construct(eq),
             'two references are equal iff they resolve to the same configurable (and agree on evaluation), however they were spelled',
